@@ -255,6 +255,7 @@ class Judge:
         self.chk, self.kind, self.univ, self.gidx, self.fx = chk, kind, univ, gidx, fx
         self.keys_seen: dict[str, list] = {}
         self.to_shrink: set[str] = set()
+        self.shrunk = 0
 
     def step(self, seq, impl, model, spec, phase) -> str | None:
         """seq: ops up to and including this step.  Returns the violation key if the
@@ -437,7 +438,7 @@ def random_phase(chk: Check, kind, fx, judge: Judge, nseq: int, depth: int, seed
     seqs = [[random_op(rng, kind, U) for _ in range(depth)] for _ in range(nseq)]
     rounds = 0
     steps = 0
-    while seqs and rounds < 12:
+    while seqs and rounds < 6:
         rounds += 1
         impl = probe(kind, univ, gidx, 'trace', seqs=seqs, chunk=max(50, len(seqs) // 4 + 1))
         both = eval_traces(kind, fx, univ, gidx, seqs, impl)
@@ -452,7 +453,9 @@ def random_phase(chk: Check, kind, fx, judge: Judge, nseq: int, depth: int, seed
             if k is not None:
                 if key in judge.to_shrink:
                     judge.to_shrink.discard(key)
-                    small = shrink(kind, fx, univ, gidx, seq[:k + 1], key)
+                    judge.shrunk += 1
+                    # bound the time spent on minimisation per kind
+                    small = shrink(kind, fx, univ, gidx, seq[:k + 1], key) if judge.shrunk <= 4 else seq[:k + 1]
                     if len(small) < len(judge.keys_seen[key]):
                         judge.keys_seen[key] = small
                         for f in chk.findings:
@@ -467,31 +470,40 @@ def random_phase(chk: Check, kind, fx, judge: Judge, nseq: int, depth: int, seed
                                                     steps_compared=steps)
 
 
-def shrink(kind, fx, univ, gidx, seq, key, max_rounds=40):
-    """Remove operations one at a time while the last step still leaves the spec with the same key."""
+def shrink(kind, fx, univ, gidx, seq, key, max_rounds=10):
+    """Delta-debugging: remove chunks of operations (halving the chunk size) while the last step
+    still leaves the specification with the same key."""
     cur = seq
+    chunk = max(1, (len(cur) - 1) // 2)
     for _ in range(max_rounds):
-        cands = [cur[:i] + cur[i + 1:] for i in range(len(cur) - 1)]
-        if not cands:
+        n = len(cur) - 1                      # the last operation stays
+        cands = [cur[:i] + cur[i + chunk:] for i in range(0, n, chunk) if i + chunk <= n]
+        hit = None
+        if cands:
+            impl = probe(kind, univ, gidx, 'trace', seqs=cands, chunk=1000)
+            both = eval_traces(kind, fx, univ, gidx, cands, impl)
+            for c, tr, (mtr, strc) in zip(cands, impl, both):
+                k, kk = first_divergence(None, kind, c, tr, mtr, strc, 'shrink', record=False)
+                if kk == key and k == len(c) - 1:
+                    hit = c
+                    break
+        if hit is not None:
+            cur = hit
+            chunk = min(chunk, max(1, len(cur) - 1))
+        elif chunk == 1:
             break
-        impl = probe(kind, univ, gidx, 'trace', seqs=cands, chunk=1000)
-        both = eval_traces(kind, fx, univ, gidx, cands, impl)
-        for c, tr, (mtr, strc) in zip(cands, impl, both):
-            k, kk = first_divergence(None, kind, c, tr, mtr, strc, 'shrink', record=False)
-            if kk == key and k == len(c) - 1:
-                cur = c
-                break
         else:
-            break
+            chunk = max(1, chunk // 2)
     return cur
 
 
 # ---------------------------------------------------------------------------
 
-THEOREMS = ['C18_qset_refines', 'C18_qset_sequences', 'C18_linqset_refines', 'C18_linqset_sequences',
-            'C18_predicates_refines', 'C18_predicates_sequences', 'C18_failed_single_op_is_noop',
-            'C18_predicates_no_conflict', 'C18_predicates_lookup_total', 'C18_observations_agree',
-            'C18_linqset_setitem_refuted', 'C18_qset_setslice_refuted', 'C18_predicates_setslice_refuted']
+THEOREMS = ['C18_qset_refines', 'C18_qset_sequences', 'C18_qset_setslice_refuted',
+            'C18_linqset_refines', 'C18_linqset_sequences', 'C18_linqset_setitem_refuted',
+            'C18_predicates_refines', 'C18_predicates_sequences', 'C18_predicates_no_conflict',
+            'C18_predicates_lookup_total', 'C18_predicates_setslice_refuted',
+            'C18_observations_agree', 'C18_failed_single_op_is_noop']      # order of coq/Props/C18.v
 
 
 def run(args) -> int:
@@ -502,8 +514,15 @@ def run(args) -> int:
     ensure_theory()
     chk.assumptions = props_assumptions('C18')
     chk.theorems = THEOREMS
-    for a in chk.assumptions:
-        chk.obligation('Print Assumptions: ' + a[:60], a.startswith('Closed'))
+    if len(chk.assumptions) != len(THEOREMS):
+        raise MachineryError(f'Props/C18.v: {len(chk.assumptions)} Print Assumptions answers for '
+                             f'{len(THEOREMS)} theorems')
+    for name, a in zip(THEOREMS, chk.assumptions):
+        closed = a.startswith('Closed')
+        chk.obligation(f'{name}: closed under the global context', closed)
+        if not closed:
+            chk.violation(f'theorem:{name}', f'{name} depends on {a}',
+                          dict(kind_of_case='theorem', theorem=name, assumptions=a), found_input=False)
     fx = detect_variants()
     chk.notes['model_variant'] = {k: ('repaired' if (all(v) if isinstance(v, tuple) else v) else 'current code')
                                   for k, v in fx.items()}
